@@ -164,6 +164,52 @@ def ir_json(ops):
     return out
 
 
+WILD = ("signal-each", "signal-anything", "signal-everything")
+
+
+def wild_sources(ir):
+    """For every IR node with a wildcard operand: the entities that operand is meant to read
+    (wire merges expanded, entity outputs resolved to the placed entity)."""
+    by_id = {op["id"]: op for op in ir}
+
+    def expand(src, depth=0):
+        op = by_id.get(src)
+        if op is None or depth > 8:
+            return [src]
+        if op.get("kind") == "IRWireMerge":
+            out = []
+            for s in op.get("sources", []):
+                if isinstance(s, dict) and "src" in s:
+                    out += expand(s["src"], depth + 1)
+            return out
+        if op.get("kind") == "IREntityOutput":
+            return [op.get("entity_id")]
+        return [src]
+
+    res = {}
+    for op in ir:
+        refs = []
+        for k in ("left", "right", "output_value"):
+            o = op.get(k)
+            if isinstance(o, dict) and (o.get("sig") in WILD or "bundle" in o):
+                refs += expand(o["src"])
+        for c in op.get("conditions", []) or []:
+            for k in ("first_operand", "second_operand"):
+                o = c.get(k)
+                if isinstance(o, dict) and (o.get("sig") in WILD or "bundle" in o):
+                    refs += expand(o["src"])
+        ibc = op.get("inline_bundle_condition")
+        if isinstance(ibc, dict):
+            o = ibc.get("input_source")
+            if isinstance(o, dict) and "src" in o:
+                res.setdefault(op.get("entity_id"), [])
+                res[op.get("entity_id")] += expand(o["src"])
+        if refs:
+            res.setdefault(op["id"], [])
+            res[op["id"]] += refs
+    return res
+
+
 # ---------------------------------------------------------------- capture
 class Capture:
     def __init__(self):
@@ -293,6 +339,8 @@ def compile_capture(source: str, optimize: bool = True, power_poles: str | None 
         rec["ir_lowered"] = cap.ir_lowered
     if cap.ir_final is not None:
         rec["ir_final"] = cap.ir_final
+        rec["placed"] = [op.get("entity_id") for op in cap.ir_final if op.get("kind") == "IRPlaceEntity"]
+        rec["wild_sources"] = wild_sources(cap.ir_final)
     if cap.lowerer is not None:
         low = cap.lowerer
         rec["names"] = {k: ref_json(v) for k, v in low.signal_refs.items()}
